@@ -93,7 +93,7 @@ pub proof fn lemma_wm_step(a: HashMap<InternalKeyspaceId, EvictionWatermark>, b:
                         batch.seqno == bv.seqno, batch.cleared_keyspaces@ == bv.cleared,
                         0 <= __fjx_n1 <= bv.items.len(), __fjx_it1.remaining().len() == bv.items.len() - __fjx_n1,
                         forall|j: int| 0 <= j < __fjx_it1.remaining().len() ==> item_view(#[trigger] __fjx_it1.remaining()[j]) == bv.items[__fjx_n1 + j],
-                        w.trees == replay_items(*old(w), t0, bv.items, __fjx_n1, bv.seqno), // [C03:every-item-of-the-batch-applied] [C12:unknown-ids-skipped-not-aborting]
+                        w.trees == replay_items(*old(w), t0, bv.items, __fjx_n1, bv.seqno), // [C02:every-item-of-the-batch-applied] [C03:every-item-of-the-batch-applied] [C12:unknown-ids-skipped-not-aborting]
                         ids_valid(reader.emits@), all_ids_below(reader.emits@, __fjx_n0 - 1, w.next_ks_id), ids_below(bv, __fjx_n1, 0, w.next_ks_id), // [C12:P-ID-counter-above-every-journaled-id]
                         seqnos_below(reader.emits@, __fjx_n0, w.seqno), // [C11:counter-above-every-replayed-journal-record]
                         wm_inv(*watermarks, w.trees, bv.seqno), // [C10:watermark-tops-every-rebuilt-memtable]
